@@ -546,32 +546,78 @@ STEP_KIND = {"cylinder": "cyl", "frustum": "solid", "elbow": "solid", "hemispher
              "ring_chain": "ring", "contract": "ring", "fill": "cyl"}
 
 
+class ChainState:
+    """which steps may follow on the END side of a chain without running into space that is already occupied:
+    contract / fill need a free inside (never free again once a ring was put around something), expand needs a
+    free outside (occupied after contract / fill until the chain moves on axially), fill needs 8 segments"""
+
+    def __init__(self, src):
+        self.kind = {"ExtrudedRing": "ring", "ExtrudedRing6": "ring", "Cylinder": "cyl"}.get(src, "solid")
+        self.inner_free = True
+        self.outer_free = True
+        self.can_fill = src != "ExtrudedRing6"
+
+    def allowed(self, name):
+        if not step_ok(self.kind, name):
+            return False
+        if name in ("contract", "fill") and not self.inner_free:
+            return False
+        if name == "fill" and not self.can_fill:
+            return False
+        if name == "expand" and not self.outer_free:
+            return False
+        return True
+
+    def apply(self, name):
+        if name == "expand":
+            self.inner_free = False
+        elif name in ("contract", "fill"):
+            self.outer_free = False
+        else:
+            self.outer_free = True
+        self.kind = STEP_KIND[name]
+
+
+def chain_valid(steps):
+    """a chain the generator could have produced (used when failing chains are shrunk)"""
+    if not steps or steps[0] not in ("Cylinder", "Frustum", "Elbow", "ExtrudedRing", "ExtrudedRing6"):
+        return False
+    end, start = ChainState(steps[0]), ChainState(steps[0])
+    for st in steps[1:]:
+        name, _, opt = st.partition(":")
+        if name not in CHAIN_STEPS:
+            return False
+        if opt == "start":
+            if name in ("expand", "contract", "fill") or start.kind == "sphere" or not step_ok(start.kind, name):
+                return False
+            start.apply(name)
+        else:
+            if end.kind == "sphere" or not end.allowed(name):
+                return False
+            end.apply(name)
+    return True
+
+
 def random_chain(rng, maxlen=4):
     """source, then steps on the end side, then steps on the start side (never two shapes on one face)"""
     src = rng.choice(["Cylinder", "Cylinder", "Frustum", "Elbow", "ExtrudedRing", "ExtrudedRing6"])
     steps = [src]
     n = rng.randint(2, maxlen)
     n_start = rng.choice([0, 0, 1, 1, 2]) if n > 2 else rng.choice([0, 0, 1])
-    kind0 = {"ExtrudedRing": "ring", "ExtrudedRing6": "ring", "Cylinder": "cyl"}.get(src, "solid")
-    end_kind = kind0
-    inner_free = True   # contract / fill only where the inside of the ring is not already occupied
-    can_fill = src != "ExtrudedRing6"   # Cylinder.fill needs 8 segments
-    while len(steps) < n - n_start and end_kind != "sphere":
-        cands = [k for k in CHAIN_STEPS if step_ok(end_kind, k) and (inner_free or k not in ("contract", "fill"))
-                 and (can_fill or k != "fill")]
-        name = rng.choice(cands)
+    end = ChainState(src)
+    while len(steps) < n - n_start and end.kind != "sphere":
+        name = rng.choice([k for k in CHAIN_STEPS if end.allowed(k)])
         steps.append(name)
-        if name == "expand":
-            inner_free = False
-        end_kind = STEP_KIND[name]
-    start_kind = kind0
+        end.apply(name)
+    start_kind = ChainState(src).kind
     while len(steps) < n and start_kind != "sphere":
         cands = [k for k in CHAIN_STEPS if step_ok(start_kind, k) and k not in ("expand", "contract", "fill")]
         name = rng.choice(cands)
         steps.append(name + ":start")
         start_kind = STEP_KIND[name]
     if len(steps) == 1:
-        steps.append("ring_chain" if kind0 == "ring" else "cylinder")
+        steps.append("ring_chain" if end.kind == "ring" else "cylinder")
+    assert chain_valid(steps), steps
     return steps
 
 
